@@ -162,13 +162,20 @@ func init() {
 					scribble = "1"
 				}
 				jobs = append(jobs, &engine.Job{ID: fmt.Sprintf("c05-%d", i), Harness: "zzH_C05", PoolMode: pool,
-					Params: map[string]string{"path": p.Text, "holes": p.Holes, "config": cfg, "history": fmt.Sprint(hist), "recycle": fmt.Sprint(i % 2), "scribble": scribble},
+					Params: map[string]string{"path": p.Text, "holes": p.Holes, "config": cfg, "history": fmt.Sprint(hist), "recycle": fmt.Sprint(i % 2), "scribble": scribble, "mutate": "0"},
 					Docs:   docs, MaxPaths: 400000, TimeLimit: 4 * time.Minute})
+				if i%3 == 2 {
+					// the same document object, updated in place between two calls
+					dm := smallDoc(p)
+					jobs = append(jobs, &engine.Job{ID: fmt.Sprintf("c05mut-%d", i), Harness: "zzH_C05", PoolMode: pool,
+						Params: map[string]string{"path": p.Text, "holes": p.Holes, "config": cfg, "history": "2", "recycle": "0", "scribble": "0", "mutate": "1"},
+						Docs:   map[string]*engine.DocCfg{"doc1": dm}, MaxPaths: 400000, TimeLimit: 4 * time.Minute})
+				}
 			}
 			return jobs
 		},
 		Bounds: func(tier string) map[string]interface{} {
-			return map[string]interface{}{"histories": "1 call on Doc(<=2 levels, arrays 0..2, keys {a,b}) or 2 calls on independent Doc(<=2 levels, arrays 0..1, key {a}, leaves null/float64/string); optional unrelated Retrieve between calls; optional scribbling over the returned slice",
+			return map[string]interface{}{"in-place": "for a third of the paths, two calls on the same document object whose members are rotated in place between the calls", "histories": "1 call on Doc(<=2 levels, arrays 0..2, keys {a,b}) or 2 calls on independent Doc(<=2 levels, arrays 0..1, key {a}, leaves null/float64/string); optional unrelated Retrieve between calls; optional scribbling over the returned slice",
 				"induction": "longer histories are covered only through the per-call obligations (tree unchanged, no read of recycled buffers, fresh result slice), which make every call start from an equivalent state",
 				"pool":      "LIFO reuse and always-fresh"}
 		},
@@ -255,6 +262,26 @@ func init() {
 					Params: map[string]string{"path": target, "holes": holes, "config": cfgs[rng.Intn(len(cfgs))], "history": hist},
 					Docs:   map[string]*engine.DocCfg{"doc": tinyDoc(tp)}, MaxPaths: 200000})
 			}
+			// the same path parsed first under another configuration (caches keyed by the path alone)
+			var fnPaths []string
+			for _, b := range bad {
+				fnPaths = append(fnPaths, b)
+			}
+			fnPaths = append(fnPaths, "$.f().a", "$.f()[", "$.a.f() x", "$.agg()[0]", "$.f()", "$.a.agg()", "$.*.f().g()", "$[?(@.f() == 1)]", "$[?(@.a.f() == 1", "$.a.g()]", "$.aggfail().f()[(1)]", "$.unknown().f()", "$.f().unknown()", "$.a", "$[0]")
+			k := 0
+			for _, fp := range fnPaths {
+				for _, c1 := range cfgs {
+					for _, c2 := range cfgs {
+						if c1 == c2 {
+							continue
+						}
+						jobs = append(jobs, &engine.Job{ID: fmt.Sprintf("c19x-%d", k), Harness: "zzH_C19",
+							Params: map[string]string{"path": fp, "holes": "", "config": c1, "history": c2 + "\t" + fp + "\n"},
+							Docs:   map[string]*engine.DocCfg{"doc": tinyDoc(Path{Depth: 1})}, MaxPaths: 200000})
+						k++
+					}
+				}
+			}
 			// after a history, a parsed function still behaves per the reference semantics
 			special := []string{"$[?(@.a == \"'a\")]", "$[?(@.b == '\"b')]", "$[?(@.a == \"'b\")]", "$[?(@.a == 'a')]", "$[?(@.a == \"a\")]", "$['\\'a']", "$[\"a\"]", "$['a']", "$.a", "$['b']",
 				"$[?(@.a =~ /'a/)]", "$[\"'a\"]", "$['\"a']", "$.b", "$[?(@.a == 7.5e1)]", "$[7001]", "$[?(@.a == 'x')]", "$[?(@.a == \"x\")]"}
@@ -289,7 +316,7 @@ func init() {
 		},
 		Stubs:        stateStubs,
 		Assumptions:  commonAssumptions,
-		ExpectLabels: []string{"parser-state-reset", "mutex-free", "same-parse-outcome", "same-parse-error", "same-behaviour", "same-functions-called", "accessor-mode-of-this-config-only"},
+		ExpectLabels: []string{"same-outcome-as-fresh-process", "reparse-uses-the-current-config", "parser-state-reset", "mutex-free", "same-parse-outcome", "same-parse-error", "same-behaviour", "same-functions-called", "accessor-mode-of-this-config-only"},
 	})
 }
 
